@@ -167,6 +167,28 @@ def instVal (M : Model) (ρ : Valuation) (inst : Term.Inst) : Valuation :=
 def pullVal (M : Model) (ρ : Valuation) (σ : Ty.TyInst) : Valuation :=
   fun k n T => if k = 2 then constVal M ρ n (T.subst σ) else ρ k n (T.subst σ)
 
+/-- size of a type, `none` as soon as a component exceeds `cap` (`Model.size` itself would build
+astronomically large powers) -/
+partial def capSize (M : Model) (cap : Nat) : Ty → Option Nat
+  | .stvar n => some (M.stv n + 1)
+  | .tvar n => some (M.tv n + 1)
+  | .con n args => do
+    let ss ← args.mapM (capSize M cap)
+    match n, ss with
+    | "bool", [] => some 2
+    | "fun", [a, b] =>
+      if b ≤ 1 then some b
+      else if a > 40 then none
+      else if b ^ a > cap then none else some (b ^ a)
+    | _, _ => some (M.con n ss + 1)
+
+/-- all types written in a term (atoms and binders) -/
+def typesOf : Term → List Ty → List Ty
+  | .svar _ T, acc | .var _ T, acc | .const _ T, acc => T :: acc
+  | .comb f a, acc => typesOf a (typesOf f acc)
+  | .abs _ T b, acc => typesOf b (T :: acc)
+  | .bound _, acc => acc
+
 inductive SVerdict where
   | same (tried : Nat) (exhaustive : Bool)
   | diff (asg : List (Oracle.Atom × Nat))
@@ -176,6 +198,8 @@ inductive SVerdict where
 atoms are valued (all of them evaluated in `M`) -/
 def searchDiff (M : Model) (terms : List Term) (differs : Valuation → Bool)
     (budget seed maxCost : Nat) : SVerdict :=
+  let tys := terms.foldl (fun acc t => typesOf t acc) []
+  if !(tys.all (fun T => (capSize M maxCost T).isSome)) then .skip "type_size" else
   let atoms := terms.foldl (fun acc t => Oracle.atomsAcc t acc) []
   let sized := atoms.map (fun a => (a, M.size a.2.2))
   let cost := terms.foldl (fun c t => Oracle.costAcc M t c) 0
